@@ -235,7 +235,7 @@ class Prov:
                 pr = c.get("promoted", -1)
                 if pr is not None and pr >= 0:
                     # promoted constant: continue into its body (value of its return place)
-                    pb = self.b.prog.bodies.get((self.b.crate, norm(c["uneval"]), pr))
+                    pb = self.b.prog.by_did.get((self.b.crate, c.get("udid", -1), pr)) or self.b.prog.bodies.get((self.b.crate, norm(c["uneval"]), pr))
                     if pb is not None and pb is not self.b:
                         return pb.prov.local_src(0, path) or {Src("const", c["d"], c["ty"], (norm(c["uneval"]), pr))}
                 return {Src("const", c["d"], c["ty"], (norm(c["uneval"]), pr))}
@@ -692,6 +692,7 @@ class Program:
         self.cfg = cfg
         self.crates = {}
         self.bodies = {}  # (crate_key, path, promoted) -> Body
+        self.by_did = {}  # (crate_key, def index, promoted) -> Body
         self.facts = defaultdict(list)  # crate_key -> facts
         files = sorted(glob.glob(os.path.join(factdir, "*.json")))
         if not files:
@@ -701,10 +702,26 @@ class Program:
                 d = json.load(fh)
             ck = d["crate"] + (".test" if d.get("test") else "")
             self.crates[ck] = {"cfg": d.get("cfg", []), "file": os.path.basename(f), "bodies": len(d["bodies"])}
+            cur_suffix = {}
             for raw in d["bodies"]:
                 b = Body(self, raw)
                 b.crate = ck
+                # def_path_str does not disambiguate same-named items of one scope (e.g. five `const SUFFIXES` in the arms of
+                # one match): number the duplicates; a body's promoted constants follow it in the file and share its suffix
+                if b.promoted < 0:
+                    if (ck, b.path, -1) in self.bodies:
+                        n = 1
+                        while (ck, "%s#%d" % (b.path, n), -1) in self.bodies:
+                            n += 1
+                        cur_suffix[b.path] = "#%d" % n
+                    else:
+                        cur_suffix[b.path] = ""
+                sfx = cur_suffix.get(b.path, "")
+                if sfx:
+                    b.path = b.path + sfx
                 self.bodies[(ck, b.path, b.promoted)] = b
+                if "did" in raw:
+                    self.by_did[(ck, raw["did"], b.promoted)] = b
             self.facts[ck] = d["facts"]
         self._children = None
 
@@ -750,6 +767,13 @@ class Program:
 
     def promoted(self, body, idx):
         return self.bodies.get((body.crate, body.path, idx))
+
+    def const_body(self, crate, const_operand):
+        """Body of the (local, non-promoted) constant named by a constant operand, resolved by def index."""
+        c = const_operand["c"] if "c" in const_operand else const_operand
+        if c.get("udid", -1) >= 0:
+            return self.by_did.get((crate, c["udid"], c.get("promoted", -1) if c.get("promoted", -1) is not None else -1))
+        return None
 
     def parent_body(self, body):
         if body.parent is None:
